@@ -273,6 +273,12 @@ func (e *engine) evalStrata() error {
 		if err != nil {
 			return err
 		}
+		if e.options.recorder != nil {
+			// A base fact written in the program is a rule without premises.
+			// Without this event a base fact of a predicate that also has
+			// rules is only known through whatever rule re-derives it.
+			e.options.recorder.RuleFired(ast.Clause{Head: fact}, f, unionfind.New(), nil)
+		}
 
 		interval := e.programInfo.InitialFactTimes[i]
 		if interval != nil && e.temporalStore != nil {
